@@ -79,6 +79,12 @@ def sweep_scenarios(quick, seed):
         for sized in (0, 1):
             k += 1
             out.append({"ttl": 0, "jump": 0, "later": 0, "op": op, "sized": sized, "syncexec": k % 2, "warm": 3 + k, "max": 100})
+    # the timer of an expired entry fires after a parked writer has replaced it and before the writer's event is replayed (C13 / C06)
+    k = 0
+    for op in ("swp.set", "swp.compute"):
+        for ttl in (3 * TICK, 70 * TICK):
+            k += 1
+            out.append({"ttl": ttl, "jump": 2 * TICK + 7, "later": 0, "op": op, "sized": k % 2, "syncexec": (k // 2) % 2, "warm": 0, "max": 0})
     # stale-node eviction while a load of the key is in flight (C08)
     for op in ("ld.staleevict.inv", "ld.staleevict.set"):
         out.append({"ttl": 0, "jump": 0, "later": 0, "op": op, "sized": 1, "syncexec": 0, "warm": 0, "max": 0})
@@ -168,7 +174,7 @@ def read_race_half(prop, tier, mc_out=None):
     runs), judged by SweepHist.tla; returns (scenarios, [(pred, detail, path)] owned by `prop`, broken)."""
     seed = vlib.seed()
     if prop == "C06":
-        scs = [sc for sc in sweep_scenarios(False, seed) if sc["op"].startswith(("gate.", "sia.", "ord.")) and sc["op"] != "gate.size"]
+        scs = [sc for sc in sweep_scenarios(False, seed) if sc["op"].startswith(("gate.", "sia.", "ord.", "swp.")) and sc["op"] != "gate.size"]
     elif prop == "C05":
         scs = [sc for sc in sweep_scenarios(False, seed) if sc["op"].startswith("sia.") or sc["op"] == "gate.size"]
     elif prop == "C08":
@@ -356,6 +362,8 @@ def run(prop, tier, replay=None):
                     r["deadlinepassed"] = 1 if sc["ttl"] <= total else 0
                     if sc["op"].startswith(("mass.", "ld.", "persist.", "rb.", "ev.")):
                         r["mustsweep"], r["deadlinepassed"] = 0, 1
+                    if sc["op"].startswith(("swp.", "ord.")):
+                        r["mustsweep"], r["deadlinepassed"] = 0, 0
                     if sc["op"].startswith("late."):
                         r["mustsweep"], r["deadlinepassed"] = 1, 1
                     if sc["op"] == "gate.size":
